@@ -151,6 +151,31 @@ func c11Scenarios(tier string) []*world.Scenario {
 			}
 		}
 	}
+	// the error is the FIRST reply on a cold backend connection that starts with a handshake (AUTH when a password is
+	// configured, READONLY on replica connections) and arrives in the same read as the handshake replies
+	for _, cfg := range []struct {
+		pw       string
+		replicas bool
+	}{{"secret", false}, {"", true}, {"secret", true}} {
+		for _, ei := range errs {
+			for _, kind := range []string{"get", "mget"} {
+				nf := 1
+				if kind == "mget" {
+					nf = 2
+				}
+				sc := c11Scenario(kind, nf, []string{AddrA, AddrA1, AddrA2}, ei, 1)
+				if cfg.replicas {
+					sc.Nodes = T3()
+				}
+				sc.Password = cfg.pw
+				sc.CoalesceAll = true
+				sc.HandshakeCuts = []int{}
+				sc.Family = "error-first-on-handshaking-connection"
+				sc.Name += fmt.Sprintf("/cold-handshake/pw=%v/replicas=%v", cfg.pw != "", cfg.replicas)
+				out = append(out, sc)
+			}
+		}
+	}
 	// the error reply shares a backend read with the reply of ANOTHER client whose connection goes away while its reply is
 	// delivered (QUIT pipelined behind its request / it hung up / it reset): the error must still reach its own client
 	for _, how := range []string{"quit", "fin", "rst"} {
